@@ -13,6 +13,7 @@ pub mod c10;
 pub mod c11;
 pub mod c14;
 pub mod c15;
+pub mod c16;
 pub mod c17;
 
 pub fn dispatch(id: &str, opts: &mut Opts) -> i32 {
@@ -31,6 +32,7 @@ pub fn dispatch(id: &str, opts: &mut Opts) -> i32 {
         "C13" => run_prop(&hostile::C13, opts),
         "C14" => run_prop(&c14::C14, opts),
         "C15" => run_prop(&c15::C15, opts),
+        "C16" => run_prop(&c16::C16, opts),
         "C17" => run_prop(&c17::C17, opts),
         _ => {
             eprintln!("unknown property id {id}");
